@@ -308,26 +308,47 @@ Section Ops.
     end.
   Definition op_delete := op_delete_gen get_existing.
 
-  (** downloadBlob + blobDownload.Prepare/run for one layer served with content [c]: cache hit, or part record,
-      -partial file, (ranged GET, writes), part record removed, rename into place *)
-  Definition download (r : run) (l : layer) (oc : option N) : run * option bool (* Some hit | None = failed *) :=
+  (** downloadBlob + blobDownload.Prepare/run for one layer whose bytes the registry serves as content [c] (None: 404).
+      Layers here have one part (minDownloadPartSize is 100 MB).  Prepare resumes from the part record if there is one
+      (repaired, fixes/C12-torn-part-record.patch: a record that cannot be read is discarded and the download starts
+      over; unrepaired: Prepare fails), else HEAD + newPart (writePart: truncate, encode).  run: open -partial (no
+      truncation), fetch the part unless the record says it is complete and rewrite the record, verify the file against
+      the digest, remove the record, rename into place — or, on a mismatch, remove the file. *)
+  Definition download_gen (torn_fails : bool) (r : run) (l : layer) (oc : option N) : run * option bool (* Some hit | None = failed *) :=
     let h := dhex (ldg l) in
     match bget h (rs r) with
     | Some _ => (r, Some true)
     | None =>
-        match oc with
-        | None => (r, None)   (* HEAD answers 404: nothing written *)
-        | Some c =>
-            if size_of c =? 0 then
-              (* Total = 0: no parts *)
-              (emit (emit r (EAddDebris (DPartial h))) (ERenPartial h c), Some false)
-            else
-              let r1 := emit r (EAddDebris (DPartRec h 0)) in
-              let r2 := emit r1 (EAddDebris (DPartial h)) in
-              let r3 := emit r2 (ERmDebris (DPartRec h 0)) in
-              (emit r3 (ERenPartial h c), Some false)
+        let fresh (r : run) : option (run * option prstate) :=
+          match oc with
+          | None => None   (* HEAD answers 404 *)
+          | Some c => if size_of c =? 0 then Some (r, None)
+                      else Some (emit (emit r (EPartRec h 0 PRTorn)) (EPartRec h 0 PRTodo), Some PRTodo)
+          end in
+        let prep : option (run * option prstate) :=
+          match partrec_state h 0 (debris (rs r)) with
+          | Some PRTorn => if torn_fails then None else fresh (emit r (ERmPart h 0))
+          | Some st => Some (r, Some st)
+          | None => fresh r
+          end in
+        match prep, oc with
+        | Some (r1, st0), Some c =>
+            let r2 := emit r1 (EAddDebris (DPartial h)) in
+            let r3 := match st0 with
+                      | Some PRTodo => emit (emit r2 (EPartRec h 0 PRTorn)) (EPartRec h 0 PRDone)
+                      | _ => r2
+                      end in
+            let r4 := match st0 with Some _ => emit r3 (ERmPart h 0) | None => r3 end in
+            if dcolon (ldg l) && (c =? h) then (emit r4 (ERenPartial h c), Some false)
+            else (emit r4 (ERmDebris (DPartial h)), None)
+        | Some (r1, _), None => (r1, None)
+        | None, _ => (match partrec_state h 0 (debris (rs r)), torn_fails with
+                      | Some PRTorn, false => emit r (ERmPart h 0)
+                      | _, _ => r
+                      end, None)
         end
     end.
+  Definition download := download_gen false.
 
   (** the layers in order, config last; stops at the first failure *)
   Fixpoint download_all (r : run) (ls : list layer) (cs : list (option N)) : run * option (list (layer * bool)) :=
@@ -412,6 +433,9 @@ Section Ops.
       delete_unused r1 (map (fun p => MkDigest true (fst p)) (blobs (rs r))).
 
   Definition op_startup (s : store) : run * result := (startup_rest (fix_blobs (init s)), ROk).
+
+  (** the start-up sequence with OLLAMA_NOPRUNE set: fixBlobs only *)
+  Definition startup_noprune (s : store) : store := rs (fix_blobs (init s)).
 
   Definition op_run (s : store) (o : op) : run * result :=
     match o with
